@@ -30,6 +30,7 @@ func init() {
 				n = 10
 			}
 			bs = append(bs, splitBatches("prng", n, true, 2, map[string]string{"mode": "prng"})...)
+			bs = append(bs, Batch{Name: "linger-p4", Args: map[string]string{"procs": "4", "mode": "linger"}, Race: true, Procs: 4, Weight: 2})
 			return bs
 		},
 		Run: runC17,
@@ -79,6 +80,8 @@ func runC17(c *Ctx) {
 		}
 	}
 	switch c.Arg("mode", "") {
+	case "linger":
+		runLingerRounds(c, "C17")
 	case "defnick":
 		runC17DefNick(c)
 	case "exh":
